@@ -4,10 +4,16 @@
   descending, starts with `e` and contains `e − 1`; the lookup of an epoch in the chain returns the
   vector written for it; for sequential histories (`Proofs/EpochHist.lean`) the vector of every live guard
   stays available and unchanged through any number of forwards, node creations and retirements.
-  The unrestricted statement is false on the pinned tree (known finding F6,
-  `findings/F6_enter_epoch_stall.scen`): `EnterEpoch` publishes the epoch it read in a second step.
+  For **every interleaving** of workers (with ID reuse) and the coordinator (`Model/EpochLists.lean`,
+  Props/EpochListsThm.lean): `c17_protocol` (every complete guard's lookup returns the vector published for
+  its epoch, with the C17 shape), `c17_protocol_stable` (the very same vector for as long as the guard lives),
+  `c17_protocol_forward_enabled` (the coordinator's list handling never blocks) — under the premise that no
+  `EnterEpoch` store is stale.  The unrestricted statement is false on the pinned tree (known finding F6,
+  `findings/F6_enter_epoch_stall.scen`): `EnterEpoch` publishes the epoch it read in a second step;
+  `lists_stale_premise_needed` shows the same failure on the model.
 -/
 import CppUtil.Proofs.EpochHist
+import CppUtil.Props.EpochListsThm
 import CppUtil.Gen.Thread
 
 namespace CppUtil.Props
